@@ -247,6 +247,108 @@ theorem search_sound (ops : List Op) (s i : Option Nat) :
   obtain ⟨o, ho, heq⟩ := outsEquiv_getElem? (pools_refine_spec ops) j _ hout
   exact ⟨hm, j, c, hj, by rw [ho, OutEquiv.ok_iff.mp heq], hpr⟩
 
+/-- **A conflicting second vote is reported.** After an individual attestation by validator `v` for data
+`d₁` was accepted, a later individual attestation by `v` with the same target epoch for different data
+`d₂` is answered with an error — as long as no `Prune e` with `target < e − 1` came in between. -/
+theorem double_vote_reported (ops mid : List Op) (a1 a2 : Att) (c1 c2 : List Nat) (v : Nat)
+    (h1 : onesCount a1.bits = 1) (hv1 : singleParticipant a1.bits c1 = .ok v)
+    (hok : answer (reach ops) (.att a1 c1) = .ok)
+    (hmid : ∀ e, Op.prune e ∈ mid → ¬ a1.data.target < e - 1)
+    (h2 : onesCount a2.bits = 1) (hv2 : singleParticipant a2.bits c2 = .ok v)
+    (ht : a2.data.target = a1.data.target) (hd : a2.data ≠ a1.data) :
+    answer (afterAll (after (reach ops) (.att a1 c1)) mid) (.att a2 c2) = .err := by
+  have h := reach_related ops
+  have hspec : outOfBool (Spec.add (sreach ops).att a1 c1).2 = .ok := spec_ok_of_answer_ok h hok
+  have hvote : singleVote ((sreach ops).step (.att a1 c1)).1.att v a1.data.target = some a1.data := by
+    rw [sstep_att]; exact spec_single_accepted h1 hv1 (outOfBool_eq_ok.mp hspec)
+  have hper := srun_singleVote_persist _ mid v _ _ hvote hmid
+  have hrel := afterAll_related (after_related h (.att a1 c1)) mid
+  apply answer_err_of_spec_err hrel
+  show outOfBool (Spec.add _ a2 c2).2 = .err
+  rw [outOfBool_eq_err]
+  exact spec_single_conflict h2 hv2 (ht ▸ hper) (fun e => hd e.symm)
+
+/-- non-vacuity: the hypotheses are satisfiable, and the same history without the conflict is accepted -/
+example : answer (afterAll (after (reach []) (.att ⟨⟨1, 0, 0, 1⟩, [0x05], 5⟩ [10, 11])) [.prune 1])
+    (.att ⟨⟨1, 0, 0, 2⟩, [0x05], 6⟩ [10, 11]) = .err := by decide
+example : answer (afterAll (after (reach []) (.att ⟨⟨1, 0, 0, 1⟩, [0x05], 5⟩ [10, 11])) [.prune 1])
+    (.att ⟨⟨1, 0, 0, 1⟩, [0x05], 6⟩ [10, 11]) = .ok := by decide
+
+/-- … and for aggregates: an aggregate for data without accepted aggregates, all of whose participants
+already take part in accepted (unpruned) aggregates with the same target epoch, is answered with an error. -/
+theorem double_vote_aggregate_reported (ops : List Op) (a : Att) (c : List Nat)
+    (h2 : 2 ≤ onesCount a.bits) (hnew : aggsFor (sreach ops).att a.data = [])
+    (hall : ∀ v ∈ participants a.bits c, votedAgg (sreach ops).att v a.data.target = true) :
+    answer (reach ops) (.att a c) = .err := by
+  apply answer_err_of_spec_err (reach_related ops)
+  show outOfBool (Spec.add _ a c).2 = .err
+  rw [outOfBool_eq_err]
+  exact spec_agg_all_voted h2 hnew hall
+
+/-- the same statement read off the model's own maps -/
+theorem double_vote_aggregate_reported' (ops : List Op) (a : Att) (c : List Nat)
+    (h2 : 2 ≤ onesCount a.bits) (hnew : a.data ∉ (reach ops).att.aggregate.keys)
+    (hall : ∀ v ∈ participants a.bits c, (v, a.data.target) ∈ (reach ops).att.aggPerValidator.keys) :
+    answer (reach ops) (.att a c) = .err := by
+  have h := reach_related ops
+  exact double_vote_aggregate_reported ops a c h2
+    ((h.att.aggNone a.data).mp (GoMap.get?_eq_none_iff.mpr hnew))
+    (fun v hv => (h.att.apv v a.data.target).mp (hall v hv))
+
+example : answer (reach [.att ⟨⟨1, 0, 0, 1⟩, [0x07], 5⟩ [10, 11]]) (.att ⟨⟨1, 0, 0, 2⟩, [0x07], 6⟩ [10, 11]) = .err := by
+  decide
+
+/-- **Window rotation of the sync-committee pool.** After `Reset s` the pool is at slot `s`; it accepts
+exactly the messages and contributions of slots `s − 1`, `s`, `s + 1` (64-bit wrap-around); and it keeps
+exactly the stored items whose slot is inside the new window if `s` was inside the old window
+(`s = cur − 1`, `cur`, `cur + 1`), and nothing otherwise. -/
+theorem window_rotation (ops : List Op) (slot : UInt64) :
+    let p := (reach ops).sync
+    let w' := after (reach ops) (.sreset slot)
+    w'.sync.currentSlot = slot ∧
+    (∀ m, answer w' (.smsg m) = if inWindow slot m.slot then .ok else .err) ∧
+    (∀ c, answer w' (.scontrib c) = if inWindow slot c.slot then .ok else .err) ∧
+    storedMsgs w'.sync =
+      (if inWindow p.currentSlot slot then (storedMsgs p).filter (fun m => inWindow slot m.slot) else []) ∧
+    storedContribs w'.sync =
+      (if inWindow p.currentSlot slot then (storedContribs p).filter (fun c => inWindow slot c.slot) else []) := by
+  intro p w'
+  have h := reach_related ops
+  have hrel : PoolsInv w' ((sreach ops).step (.sreset slot)).1 := after_related h (.sreset slot)
+  have hcur : ((sreach ops).step (.sreset slot)).1.sync.cur = slot := spec_reset_cur _ _
+  refine ⟨reset_currentSlot _ _, ?_, ?_, reset_stored (consistent_of_inv h).sync slot⟩
+  · intro m
+    have := answer_equiv hrel (.smsg m)
+    have hs : (((sreach ops).step (.sreset slot)).1.step (.smsg m)).2 =
+        outOfBool (inWindow slot m.slot) := by
+      show outOfBool (((sreach ops).step (.sreset slot)).1.sync.addMessage m).2 = _
+      rw [spec_addMessage_snd, hcur]
+    rw [hs, outOfBool_eq_ite] at this
+    cases hw : inWindow slot m.slot
+    · rw [hw] at this; simpa using OutEquiv.err_iff.mp this
+    · rw [hw] at this; simpa using OutEquiv.ok_iff.mp this
+  · intro c
+    have := answer_equiv hrel (.scontrib c)
+    have hs : (((sreach ops).step (.sreset slot)).1.step (.scontrib c)).2 =
+        outOfBool (inWindow slot c.slot) := by
+      show outOfBool (((sreach ops).step (.sreset slot)).1.sync.addContribution c).2 = _
+      rw [spec_addContribution_snd, hcur]
+    rw [hs, outOfBool_eq_ite] at this
+    cases hw : inWindow slot c.slot
+    · rw [hw] at this; simpa using OutEquiv.err_iff.mp this
+    · rw [hw] at this; simpa using OutEquiv.ok_iff.mp this
+
+/-- the window in plain terms -/
+theorem window_slots (s x : UInt64) : inWindow s x = true ↔ x = s - 1 ∨ x = s ∨ x = s + 1 := inWindow_iff s x
+
+/-- non-vacuity: a fresh pool is at slot `2^64 − 1`, so slot 0 is its next slot; after `Reset 0` the
+message stored for slot 0 survives, after `Reset 5` it does not -/
+example : (Pools.run Cfg.fixed (Pools.new Cfg.fixed)
+    [.smsg ⟨0, 1, 1⟩, .smsg ⟨1, 1, 1⟩, .sreset 0, .smsg ⟨1, 1, 1⟩, .smsg ⟨18446744073709551615, 2, 1⟩, .smsg ⟨2, 1, 1⟩]).2
+    = [.ok, .err, .ok, .ok, .ok, .err] := by decide
+example : storedMsgs (reach [.smsg ⟨0, 1, 1⟩, .sreset 0]).sync = [⟨0, 1, 1⟩] ∧
+    storedMsgs (reach [.smsg ⟨0, 1, 1⟩, .sreset 5]).sync = [] := by decide
+
 /-! ## 5. the bit functions -/
 
 /-- `AttestationBits.Covers` on valid bitlists decides coverage of the denoted bit lists (and reports a
